@@ -26,24 +26,28 @@ def specs(tier):
         return [
             spec('q-S3', 'S3', 'stabilization/4.3.18', 'development/4.3',
                  depth=7),
-            spec('skipq-M3', 'M3', 'development/4.3', 'development/4',
+            spec('skipq-M3', 'M3', 'development/4.3', 'development/4.3',
                  skip=True, depth=7),
-            spec('noq-nooct-D2', 'D2', 'development/4.3', 'development/5.1',
-                 queue=False, options=['no_octopus'], pushes=1),
+            spec('noq-nooct-D2', 'D2', 'development/4.3', 'development/4.3',
+                 queue=False, options=['no_octopus'], pushes=1, depth=8),
         ]
     out = []
     admin = [['rebuild_queues'], ['delete_queues'], ['force_merge']]
     for layout, d1, d2 in [
             ('D1', 'development/4.3', 'development/4.3'),
             ('D2', 'development/4.3', 'development/5.1'),
+            ('D2', 'development/4.3', 'development/4.3'),
             ('S3', 'stabilization/4.3.18', 'development/4.3'),
+            ('S3', 'stabilization/4.3.18', 'stabilization/4.3.18'),
             ('M3', 'development/4.3', 'development/4'),
+            ('M3', 'development/4.3', 'development/4.3'),
             ('H3', 'hotfix/4.2.17', 'development/4.3'),
-            ('S4', 'stabilization/4.3.18', 'development/4')]:
+            ('S4', 'stabilization/4.3.18', 'development/4'),
+            ('S4', 'development/4.3', 'development/4.3')]:
         for mode, kw in [('q', dict()), ('skipq', dict(skip=True)),
                          ('noq', dict(queue=False))]:
             for octo in ((), ('no_octopus',)):
-                name = '%s-%s%s' % (mode, layout, '-nooct' if octo else '')
+                name = '%s-%s-%s%s' % (mode, layout, 'same' if d1 == d2 else 'diff', '-nooct' if octo else '')
                 extra = {}
                 if mode != 'noq' and not octo:
                     extra['admin'] = admin
